@@ -762,7 +762,7 @@ def one(ctx, case, shrinking=False):
 
 def run_shard(ctx):
   switch = any(e.get("kind") == "known" and e.get("signature") == KNOWN_BP_SIG for e in ctx.known)
-  total = ctx.n(4800, 400000)
+  total = ctx.n(4800, 160000)
   t_start = time.time()
   budget = max(1.0, ctx.deadline - t_start)
 
